@@ -35,9 +35,9 @@ func (C03) Generate(r *core.Rand, tier string, idx int) *core.Scenario {
 	if r.P(1, 2) {
 		sc.Cfg["appdel"] = 1 // allow APPEND with \Deleted in its flag list (finding F02, repaired)
 	}
-	// input classes whose defects (F03, F04) were repaired: sets naming a message twice and
-	// sets written in descending order, each in half of the runs
-	for _, k := range []string{"dupset", "revlist"} {
+	// input classes whose defects (F03, F04, F05) were repaired: sets naming a message twice,
+	// sets written in descending order, flags in any letter case; each in half of the runs
+	for _, k := range []string{"dupset", "revlist", "flagcase"} {
 		if r.P(1, 2) {
 			sc.Cfg[k] = 1
 		}
